@@ -68,6 +68,8 @@ type gen struct {
 	ndrv           int
 	lead           *leadInfo // where the first definition of the current file landed
 	pkgList        []*pkg    // every package of the session, in creation order
+	curDef         *bind     // the top-level defun whose body is being written
+	fwd            []*bind   // functions planned further down in this section, callable from bodies
 	inFile         []*pkg    // packages with a completed section in the current file
 	twin           *leadInfo // make the current file's first definition coincide with this one
 }
@@ -201,6 +203,7 @@ func (g *gen) ref(c cand, ctx string) {
 		}
 	} else if c.b.global && c.b.pkg != g.cur.name {
 		g.feat("xpkg")
+		g.cur.refd[c.b.name] = true
 		// a bare reference to an imported name: where the use-package form
 		// stands decides what a per-file analysis can know about it
 		if g.cur.impConflict[c.b.name] {
